@@ -201,3 +201,21 @@ def singles_cases(ctx, name, obs, tol="1e-9", limit=None):
         meta[cid] = o
     res = run_interval_cases(ctx, name, SINGLES_IMPORTS, goals, shards=min(16, max(1, len(goals))), timeout=2400, setup=setup)
     return {cid: (res.get(cid, False), meta[cid]) for cid, _, _ in goals}
+
+
+def singles_correspondence(ctx, binp, n=1, seed=None):
+    """for props/c08.py: run `vharness c05 singles`, check the generated singles model (Gen/PMSingles.v) against
+    phasematch_singles_fiber_coupling with the 4-node Gauss-Legendre rule (about 7 CPU-minutes per case, one shard each).
+    Registers a found_input=False violation per disagreeing case; returns the number of cases closed."""
+    from vlib.common import run_harness
+    obs = run_harness(ctx, binp, ["c05", "singles", ctx.seed if seed is None else seed, n], timeout=600)
+    res = singles_cases(ctx, "PM_singles", obs)
+    ok = 0
+    for cid, (good, o) in res.items():
+        if good:
+            ok += 1
+        else:
+            ctx.violation("S4", f"generated singles integrand (Gen/PMSingles.v) and phasematch_singles_fiber_coupling disagree (or the case could not "
+                          f"be evaluated) at case {cid}", {"kind": "model_mismatch", "what": "singles_integrand"},
+                          {"setup": o["setup"], "p": o["p"], "rust_gl2": f64_of_hex(o["gl2"])}, found_input=False)
+    return ok
